@@ -201,7 +201,16 @@ func (its *document) Transaction(tag string, userFunc func(document DocumentInTx
 }
 
 func (its *document) snapshot() jsonType {
-	return its.GetSnapshot().(jsonType)
+	snap := its.GetSnapshot().(jsonType)
+	// A child Document points at the node it was obtained from. Rolling back a transaction
+	// rebuilds the whole tree, so the node is looked up again by its immutable creation time;
+	// otherwise reads and range checks through the child would see the abandoned tree.
+	if root, ok := its.Datatype.(*document); ok && root.SnapshotDatatype != its.SnapshotDatatype {
+		if cur, ok := root.GetSnapshot().(jsonType).findJSONType(snap.getCreateTime()); ok && cur != nil {
+			return cur
+		}
+	}
+	return snap
 }
 
 func (its *document) ResetSnapshot() {
